@@ -263,6 +263,101 @@ def parallelCall (v : Variant) (sims : List (Sim κ ρ)) (a : Args κ) (mode : M
 
 end Run
 
+/-! ### The process-global generators of the hosting process
+
+Some modules (`ss.Births`: `np.random.binomial`) draw from the process-global NumPy / Numba generators instead of an
+`ss.Dist`.  A pool worker inherits those generators from the parent at fork time and keeps them from one member to
+the next; the serial loop runs in the caller's process.  So the state a run *starts from* depends on worker count,
+schedule and mode.  What makes the result independent of it is that `Sim.init` resets them from `pars.rand_seed`
+before anything reads them (`Gen.initSeedsGlobalFirst`, regenerated from `Sim.init`).  This section models a run that
+READS the hosting process's state; `Lemmas/MultiRun.lean` proves that it refines the pure model above. -/
+
+/-- state of the process-global generators: right after `ss.set_seed(s)`, or anything else (`h` names it) -/
+inductive GState where
+  | seeded (s : Int)
+  | host (h : Nat)
+  deriving DecidableEq, Repr
+
+/-- What a run does with the process-global generators; every definition and theorem is for an arbitrary one.
+    `simG c s g`: the results of configuration `c`, distributions seeded with `s`, stepping started with the global
+    generators in state `g`; `after`: the state the run leaves behind; `rerand`: `ss.set_seed()` without a seed. -/
+structure GEnv (κ ρ : Type) where
+  simG : κ → Int → GState → ρ
+  after : κ → Int → GState → GState
+  rerand : GState → GState
+
+/-- the simulation as a function of configuration and seed alone: what `Sim.init` makes of it by resetting the
+    global generators from the seed -/
+def GEnv.pure {κ ρ : Type} (env : GEnv κ ρ) : κ → Int → ρ := fun c s => env.simG c s (.seeded s)
+
+/-- the global generators after `Sim.init` of a sim with `pars.rand_seed = seed`: reset iff the first statement of
+    `Sim.init` is the unconditional `ss.set_seed(self.pars.rand_seed)` (else: whatever the process held) -/
+def initGlobal (seed : Int) (g : GState) : GState := if Gen.initSeedsGlobalFirst then .seeded seed else g
+
+section RunG
+variable {κ ρ : Type} (env : GEnv κ ρ)
+
+/-- `single_run` in a process whose global generators are in state `g`: `ss.set_seed()` after a reseed / a
+    `rand_seed=` argument, `Sim.init` (only for a not yet initialised sim), then the steps. -/
+def singleRunG (obj : Sim κ ρ) (t : Task κ ρ) (g : GState) : Except Err (Sim κ ρ × GState) :=
+  let s := newSeed obj.seed t.ind t.reseed t.seedArg
+  let c := t.cfgArg.getD obj.cfg
+  let g1 := if t.reseed || t.seedArg.isSome then env.rerand g else g
+  if t.doRun then
+    if obj.results.isSome then .error .alreadyRun
+    else match obj.initSeed with
+      | some eff => .ok ({ cfg := c, seed := s, initSeed := some eff, results := some (env.simG c eff g1) }, env.after c eff g1)
+      | none => .ok ({ cfg := c, seed := s, initSeed := some s, results := some (env.simG c s (initGlobal s g1)) },
+                     env.after c s (initGlobal s g1))
+  else if Gen.doRunFalseSkipsInit then .ok ({ obj with cfg := c, seed := s }, g1)
+  else .ok ({ obj with cfg := c, seed := s, initSeed := some (obj.initSeed.getD s) },
+            match obj.initSeed with | some _ => g1 | none => initGlobal s g1)
+
+/-- the serial loop in the caller's process: the state is handed from one member to the next -/
+def execSerialG : List (Task κ ρ) → GState → Except Err (List (Sim κ ρ) × GState)
+  | [], g => .ok ([], g)
+  | t :: ts, g =>
+      match singleRunG env t.sim t g with
+      | .error e => .error e
+      | .ok (r, g1) =>
+          match execSerialG ts g1 with
+          | .error e => .error e
+          | .ok (rs, g2) => .ok (r :: rs, g2)
+
+/-- a pool whose workers each carry their own global generators (inherited at fork time: `w0`) -/
+structure PoolG (κ ρ : Type) where
+  copies : Nat → Option (Sim κ ρ)
+  wstate : Nat → GState
+
+def stepEventG (tasks : List (Task κ ρ)) (share : Nat → Nat) (p : PoolG κ ρ) (e : Nat × Nat) :
+    Except Err (PoolG κ ρ) :=
+  match tasks[e.2]? with
+  | none => .error .valueErr
+  | some t =>
+      let k := share e.2
+      match singleRunG env ((p.copies k).getD t.sim) t (p.wstate e.1) with
+      | .error er => .error er
+      | .ok (r, g') => .ok { copies := fun k' => if k' = k then some r else p.copies k',
+                             wstate := fun w => if w = e.1 then g' else p.wstate w }
+
+def runScheduleG (tasks : List (Task κ ρ)) (share : Nat → Nat) (sched : List (Nat × Nat)) (p : PoolG κ ρ) :
+    Except Err (PoolG κ ρ) :=
+  sched.foldlM (stepEventG env tasks share) p
+
+def collectG (n : Nat) (share : Nat → Nat) (p : PoolG κ ρ) : Except Err (List (Sim κ ρ)) :=
+  (List.range n).mapM fun i => match p.copies (share i) with
+    | some s => .ok s
+    | none => .error .valueErr
+
+/-- the parallel run under a schedule, the workers starting from the states `w0` -/
+def execParG (tasks : List (Task κ ρ)) (share : Nat → Nat) (sched : List (Nat × Nat)) (w0 : Nat → GState) :
+    Except Err (List (Sim κ ρ)) :=
+  match runScheduleG env tasks share sched ⟨fun _ => none, w0⟩ with
+  | .error e => .error e
+  | .ok p => collectG tasks.length share p
+
+end RunG
+
 /-! ### Statistics (`MultiSim.reduce`, `summarize`) over exact rationals -/
 
 def sum (l : List Rat) : Rat := l.foldr (· + ·) 0
@@ -367,5 +462,52 @@ def summarize (v : Variant) (m : SumMethod) (qs : List Rat) (vals : List Rat) : 
   | .median => match v with
       | .asis => .error .typeErr
       | .spec => .ok (.quantiles (qs.map fun q => quantile q vals))
+
+/-! ### `Sim.summarize` and the summary of a MultiSim
+
+`Sim.summarize(how)` turns every result series into one number; which function applies to a key is decided by the
+first entry of the `how` table whose key is a SUBSTRING of the result key (`Gen.summarizeHow` is the regenerated
+default table).  `MultiSim.reduce` ends with `reduced_sim.summarize()`: the summary of a reduced MultiSim is the
+summary of the reduced (mean / median) series.  `MultiSim.summarize(method, how)` applies `summarize` above to the
+members' summary numbers. -/
+
+/-- Python `p in k` on strings -/
+def infixB (p : List Char) : List Char → Bool
+  | [] => p.isEmpty
+  | c :: cs => p.isPrefixOf (c :: cs) || infixB p cs
+
+/-- `get_func`: first matching entry, `mean` if none matches -/
+def howFunc (how : List (String × Gen.HowFunc)) (key : String) : Gen.HowFunc :=
+  match how.find? (fun e => infixB e.1.toList key.toList) with
+  | some e => e.2
+  | none => .mean
+
+/-- `get_result` -/
+def applyHow : Gen.HowFunc → List Rat → Rat
+  | .mean, l => mean l
+  | .median, l => median l
+  | .last, l => l.getLast?.getD 0
+
+/-- the `how` argument: `'default'` or one function name for every key -/
+inductive How where
+  | default
+  | all (f : Gen.HowFunc)
+  deriving DecidableEq, Repr
+
+def howTable : How → List (String × Gen.HowFunc)
+  | .default => Gen.summarizeHow
+  | .all f => [("", f)]
+
+/-- `sim.summarize(how)[key]`, a function of the result series only -/
+def simSummary (h : How) (key : String) (series : List Rat) : Rat := applyHow (howFunc (howTable h) key) series
+
+/-- `msim.summary[key]` after `reduce`: the default summary of the reduced centre series -/
+def reducedSummary (sqrtF : Rat → Rat) (useMean : Bool) (k qlo qhi : Rat) (key : String) (members : List (List Rat)) : Rat :=
+  simSummary .default key ((reduce sqrtF useMean k qlo qhi members).map (·.centre))
+
+/-- `msim.summarize(method, how)[key]` from the members' result series -/
+def msimSummarize (v : Variant) (m : SumMethod) (qs : List Rat) (h : How) (key : String) (members : List (List Rat)) :
+    Except Err Summary :=
+  summarize v m qs (members.map (simSummary h key))
 
 end StarsimModel.MultiRun
